@@ -430,7 +430,9 @@ def gen_mech_components(rng, n_lines=None, pti_swb=None, force_pti=None):
     1-2 mechanical loads, optional PTI/PTO (returned separately: it is an electric-side object)."""
     if n_lines is None:
         n_lines = int(rng.choice([1, 2, 3], p=[0.5, 0.35, 0.15]))
-    ids = list(range(1, n_lines + 1)) if rng.random() < 0.7 else sorted(int(x) for x in rng.choice(range(1, 9), size=n_lines, replace=False))
+    ids = list(range(1, n_lines + 1)) if rng.random() < 0.6 else sorted(int(x) for x in rng.choice(range(0, 6), size=n_lines, replace=False))      # any numbers, 0 included
+    if ids != list(range(1, n_lines + 1)) and 0 not in ids and rng.random() < 0.5:
+        ids = sorted([0] + ids[1:])
     mech, ptis = [], []
     for ln in ids:
         for i in range(int(rng.integers(1, 4))):
